@@ -29,11 +29,15 @@ type Case struct {
 	F       []string `json:"features"`
 	Query   query    `json:"query"`
 	Respect bool     `json:"respect"` // abstract fields only resolve to objects of types visible under F
-	Seed    uint64   `json:"world_seed"`
-	Doc     *Doc     `json:"doc,omitempty"`
+	// Overlap: values returned through an interface field are also claimed by the hidden implementations
+	Overlap bool   `json:"overlap,omitempty"`
+	Seed    uint64 `json:"world_seed"`
+	Doc     *Doc   `json:"doc,omitempty"`
 	// Via "api": the case only fails through apifu.API (ServeGraphQL / graphql-ws), i.e. in the
 	// plumbing of the request's feature set, not in graphql.Execute.
 	Via string `json:"via,omitempty"`
+	// PQ, for Via "api": the case fails through the persisted-query extension (register, then hash only).
+	PQ bool `json:"persisted_query,omitempty"`
 	// WS, for Via "api": the socket variant on which the case fails (nil: HTTP, or try the default).
 	WS *WSVariant `json:"ws,omitempty"`
 }
@@ -93,6 +97,8 @@ type pairEnv struct {
 	// does not go through any feature test at all
 	plain  *built
 	plainW *world
+	// overlap is the worlds' overlap mode for the next differential
+	overlap bool
 }
 
 func newPairEnv(spec *Spec, F []string) (*pairEnv, error) {
@@ -118,7 +124,7 @@ func newPairEnv(spec *Spec, F []string) (*pairEnv, error) {
 // differential evaluates the property on one query. It returns "" when it holds.
 func (e *pairEnv) differential(q *query, respect bool, seed uint64) (what string, a, b outcome) {
 	for _, w := range []*world{e.fullW, e.erasedW, e.plainW} {
-		w.respect, w.seed = respect, seed
+		w.respect, w.seed, w.overlap = respect, seed, e.overlap
 	}
 	a = runQuery(e.full, e.fullW, e.F, q)
 	b = runQuery(e.erased, e.erasedW, e.all, q)
@@ -204,6 +210,7 @@ func failsSame(c *Case) string {
 		q.Text = c.Doc.text()
 		q.Vars = c.Doc.Vals
 	}
+	env.overlap = c.Overlap
 	what, _, _ := env.differential(&q, c.Respect, c.Seed)
 	return what
 }
@@ -566,6 +573,7 @@ func (h *harness) checkSpec(spec *Spec, r *hx.Rand, nDocs int, sample bool) {
 			}
 			run.Oblige(obErase, "correspondence", 1, ok, detail)
 
+			var rc2 []string
 			mv, err := modelViewLines(h.ask("(view " + featSexp(F) + ")"))
 			if err != nil {
 				run.Oblige(obView, "correspondence", 1, false, err.Error())
@@ -576,8 +584,12 @@ func (h *harness) checkSpec(spec *Spec, r *hx.Rand, nDocs int, sample bool) {
 				if err != nil {
 					d = err.Error()
 				} else {
-					rv = append(rv, realResolveCandidates(env.full, env.fullW, F, origX, origX, spec)...)
-					d = diffLines(observableRC(mv, rv), rv)
+					rv = append(rv, realResolveCandidates(env.full, env.fullW, fset(F), F, origX, origX, spec)...)
+					rc2 = h.modelRC2(F, rv)
+					if rc2 == nil {
+						rv = dropRC2(rv)
+					}
+					d = diffLines(append(observableRC(mv, rv), rc2...), rv)
 				}
 				run.Oblige(obView, "correspondence", len(mv), d == "", d)
 				if d != "" {
@@ -598,7 +610,11 @@ func (h *harness) checkSpec(spec *Spec, r *hx.Rand, nDocs int, sample bool) {
 					if err != nil {
 						d = err.Error()
 					} else {
-						rv2 = append(rv2, realResolveCandidates(env.erased, env.erasedW, env.all, origX, expand(env.erasedSp), spec)...)
+						rv2 = append(rv2, realResolveCandidates(env.erased, env.erasedW, fset(F), env.all, origX, expand(env.erasedSp), spec)...)
+						if rc2 == nil {
+							rv2 = dropRC2(rv2)
+						}
+						mv = append(mv, rc2InView(rc2, rv2)...)
 						if len(hiddenDirectiveArgs(spec, fset(F))) > 0 {
 							rv2 = dropDirLines(rv2)
 						}
@@ -633,7 +649,10 @@ func (h *harness) checkSpec(spec *Spec, r *hx.Rand, nDocs int, sample bool) {
 			q := &qs[qi]
 			respect := r.Chance(1, 2)
 			seed := r.Uint64()
+			env.overlap = q.Kind == "doc" && r.Chance(1, 2)
+			overlap := env.overlap
 			what, a, _ := env.differential(q, respect, seed)
+			env.overlap = false
 			run.Count("query:" + q.Kind)
 			if h.model != nil && q.Kind == "doc" {
 				h.tieWalk(env, spec, F, q, a)
@@ -682,7 +701,7 @@ func (h *harness) checkSpec(spec *Spec, r *hx.Rand, nDocs int, sample bool) {
 			key := hx.Hash(canonSpec(origX) + "|" + strings.Join(F, ",") + "|" + q.Text)
 			run.Case(key, gatedSomething)
 			if what != "" {
-				if h.reportOracle(&Case{Spec: spec.clone(), F: F, Query: *q, Respect: respect, Seed: seed, Doc: q.doc}, what) != "" {
+				if h.reportOracle(&Case{Spec: spec.clone(), F: F, Query: *q, Respect: respect, Overlap: overlap, Seed: seed, Doc: q.doc}, what) != "" {
 					what = "" // an open known finding, reported as such
 				}
 			}
@@ -698,6 +717,33 @@ func (h *harness) checkSpec(spec *Spec, r *hx.Rand, nDocs int, sample bool) {
 		}
 	}
 	_ = nontrivial
+}
+
+func dropRC2(lines []string) []string {
+	var out []string
+	for _, l := range lines {
+		if !strings.HasPrefix(l, "rc2 ") {
+			out = append(out, l)
+		}
+	}
+	return out
+}
+
+// rc2InView keeps the model's overlapping-claim lines that the other real side could observe too.
+func rc2InView(model, real []string) []string {
+	seen := map[string]bool{}
+	for _, l := range real {
+		if f := strings.Fields(l); len(f) >= 3 && f[0] == "rc2" {
+			seen[f[1]+" "+f[2]] = true
+		}
+	}
+	var out []string
+	for _, l := range model {
+		if f := strings.Fields(l); len(f) >= 3 && seen[f[1]+" "+f[2]] {
+			out = append(out, l)
+		}
+	}
+	return out
 }
 
 func dropDirLines(lines []string) []string {
@@ -939,7 +985,7 @@ func (h *harness) replayCase(c *Case, verbose bool) (what string) {
 		if err != nil {
 			return "cannot build: " + err.Error()
 		}
-		env.fullW.respect, env.fullW.seed = c.Respect, c.Seed
+		env.fullW.respect, env.fullW.seed, env.fullW.overlap = c.Respect, c.Seed, c.Overlap
 		q := c.Query
 		log, ok := runPrevalidated(env.full, env.fullW, env.all, c.F, &q)
 		g := gatedCalls(env.origX, fset(c.F), log)
@@ -956,6 +1002,7 @@ func (h *harness) replayCase(c *Case, verbose bool) (what string) {
 		return "cannot build: " + err.Error()
 	}
 	q := c.Query
+	env.overlap = c.Overlap
 	w, a, b := env.differential(&q, c.Respect, c.Seed)
 	if verbose {
 		fmt.Printf("schema:\n%s\nfeatures: %v\nquery (%s): %s\nvars: %v\n", canonSpec(env.origX), c.F, q.Label, q.Text, q.Vars)
@@ -969,8 +1016,8 @@ func (h *harness) replayCase(c *Case, verbose bool) (what string) {
 func (h *harness) replayAPI(c *Case, verbose bool) string {
 	origX := expand(c.Spec)
 	Fm := fset(c.F)
-	fw := &world{orig: origX, F: Fm, respect: c.Respect, seed: c.Seed}
-	ew := &world{orig: origX, F: Fm, respect: c.Respect, seed: c.Seed}
+	fw := &world{orig: origX, F: Fm, respect: c.Respect, seed: c.Seed, overlap: c.Overlap}
+	ew := &world{orig: origX, F: Fm, respect: c.Respect, seed: c.Seed, overlap: c.Overlap}
 	full, err := buildAPI(c.Spec, fw)
 	if err != nil {
 		return "cannot mount S: " + err.Error()
@@ -991,6 +1038,17 @@ func (h *harness) replayAPI(c *Case, verbose bool) string {
 	}
 	if what != "" {
 		return "API/HTTP: " + what
+	}
+	if c.PQ {
+		for _, mode := range []int{pqRegister, pqHashOnly} {
+			ap := serveHTTPPQ(full, fw, c.F, &q, mode)
+			if verbose {
+				fmt.Printf("HTTP persisted-query mode %d response(S, F, q) = %s log=%v\n", mode, ap.Resp, ap.Log)
+			}
+			if what := compareOutcomes(origX, c.F, ap, b); what != "" {
+				return "API/HTTP persisted query: " + what
+			}
+		}
 	}
 	v := WSVariant{Proto: "graphql-ws", Upgrade: c.F}
 	if c.WS != nil {
